@@ -43,11 +43,13 @@ def tie_risk(pred, ref) -> int:
     both = (pred != 0) & (ref != 0)
     if not both.any():
         return 0
-    pairs, counts = np.unique(np.stack([ref[both].astype(np.int64), pred[both].astype(np.int64)], axis=1), axis=0, return_counts=True)
-    rs = dict(zip(*np.unique(ref[ref != 0], return_counts=True)))
-    ps = dict(zip(*np.unique(pred[pred != 0], return_counts=True)))
+    # work on ranks of the labels (raw values may not fit int64)
+    _, rinv, rcnt = np.unique(ref.ravel(), return_inverse=True, return_counts=True)
+    _, pinv, pcnt = np.unique(pred.ravel(), return_inverse=True, return_counts=True)
+    b = both.ravel()
+    pairs, counts = np.unique(np.stack([rinv[b], pinv[b]], axis=1), axis=0, return_counts=True)
     from collections import Counter
-    c = Counter((int(rs[a]), int(ps[b]), int(n)) for (a, b), n in zip(pairs, counts))
+    c = Counter((int(rcnt[a]), int(pcnt[p]), int(n)) for (a, p), n in zip(pairs, counts))
     return max(c.values())
 
 
